@@ -126,7 +126,7 @@ def run(ctx):
                 "ValueError, AttributeError, TypeError, ZeroDivisionError, RecursionError, BaseException subclasses), 1-3 faulty updates in a row, then the fault-free repeat; a twin "
                 "fault-free run of the same history is the reference; non-trivial = a fault that fired after >= 1 task had run; distinct by op list")
     ctx.scale_if_changed()
-    proof_ok = vlib.standard_proof_part(ctx, "props/C18.v", extra_targets=["run/RunManager.vo", "proofs/TasksSrc.vo", "proofs/TasksSrcData.vo", "proofs/TasksSrcRefresh.vo"], translators=["tasks"])
+    proof_ok = vlib.standard_proof_part(ctx, "props/C18.v", extra_targets=["run/RunManager.vo", "proofs/TasksSrc.vo", "proofs/TasksSrcData.vo", "proofs/TasksSrcRefresh.vo", "proofs/TasksSrcSorting.vo"], translators=["tasks"])
     cases = systematic_cases() + [mc.gen_history(ctx.rng, "fault", nops=ctx.rng.randint(5, 14)) for _ in range(ctx.pick(260, 5000))]
     obs = mc.run_impl_cases(cases)
     twins = [strip_faults(c) for c in cases]
